@@ -313,6 +313,11 @@ def windowFlush (D : Durable) (s : Index) (steps : List WStep) : Durable × Inde
     let r := runWindow steps D s sn.writes
     (applyWrites r.1 r.2.2, commit r.2.1 sn)
 
+/-- durable objects right after `anda_db::index::Hnsw::new`: the empty index has been flushed -/
+def createD (mls : Nat) : Durable := { blobs := [], ids := some [], metaObj := some ⟨(0, 0), 1, [], 0, mls⟩ }
+/-- the in-memory index at that point -/
+def createS (mls : Nat) : Index := { version := 1, savedVersion := 1, maxLayers := mls }
+
 /-! ### load -/
 
 inductive LoadErr where
